@@ -21,7 +21,8 @@ Replica L applies them one by one. Replica R applies the same requests and resta
 either it replayed its log up to that point (the same handler) and got LoadCompleted, or the log was compacted and it loads
 the snapshot the component wrote (build_snapshot -> load_snapshot_record; the records carry the McpServerDo / McpToolSpecDo
 objects themselves, the generated message code and serde_json are outside) and then gets LoadCompleted.
-Oracle: after the history both replicas answer GetServerByKey for each of the three keys, GetServer for both ids (present,
+After the history a closing probe - RemoveToolSpec(T), the request whose outcome depends on the derived reference counts - goes to both.
+Oracle: after the history and after the probe both replicas answer GetServerByKey for each of the three keys, GetServer for both ids (present,
 unique key, tool list of the current value) and GetToolSpec(T) (present, current version, versions) alike, and every request is
 answered alike (Ok / Err) on both.
 """
@@ -243,6 +244,17 @@ def run(tier, seed):
                     if ra < n:
                         covers["replica R restarts in the middle of the history"] += 1
             oa, ob_ = observe(live), observe(rep)
+            if oa == ob_:
+                # closing probe: both replicas are asked to remove the tool spec - the request whose outcome depends on the derived reference counts
+                # (a stale count shows here whatever the length of the history)
+                mkp = lambda: Enum("McpManagerRaftReq", "RemoveToolSpec", [copy.deepcopy(TKEY)])
+                pa_ = it._invoke(raft_h, [live, mkp(), "ctx"], self_ty="McpManager")
+                pb_ = it._invoke(raft_h, [rep, mkp(), "ctx"], self_ty="McpManager")
+                rec.append({"op": "unspec", "answer": answer_kind(pa_), "closing_probe": True})
+                if answer_kind(pa_) != answer_kind(pb_):
+                    return ("violation", "the closing request (unspec) is answered %s on the node that applied the log one by one and %s on the node that restarted behind request %d"
+                            % (answer_kind(pa_), answer_kind(pb_), ra) + (" from a snapshot" if snap else ""), "mcp-answer-differs", ra, snap)
+                oa, ob_ = observe(live), observe(rep)
             for q in oa:
                 if oa[q] != ob_[q]:
                     return ("violation", "%s: the node that applied the log one by one answers %s, the node that restarted behind request %d (start-up replay, load-complete) answers %s"
